@@ -84,6 +84,8 @@ Definition positive_num (v : val) : bool := match v with VNum n => 0 <? n | _ =>
 
 Section Code.
   Variable bodies : Z -> body.
+  (* is_running reads _active_agent once into a local (repaired tree) or twice (pinned tree) *)
+  Variable isr_once : bool.
 
   Definition code (p : pc) : instr pc :=
     let (pt, k) := p in
@@ -168,7 +170,13 @@ Section Code.
     | Has2 => Do (LRead 0) (fun v => (RetV (VBool (negb (is_none v))), k))
     (* def is_running(name): if self._active_agent is not None and self._active_agent.name == name:
          return True;  return name in self._background *)
-    | Isr0 n => Do (LRead 0) (fun v => if is_none v then (Isr2 n, k) else (Isr1 n, k))
+    | Isr0 n =>
+        if isr_once
+        then Do (LRead 0) (fun v => match v with
+                                    | VRef a => if a =? n then (RetV (VBool true), k) else (Isr2 n, k)
+                                    | _ => (Isr2 n, k)
+                                    end)
+        else Do (LRead 0) (fun v => if is_none v then (Isr2 n, k) else (Isr1 n, k))
     | Isr1 n => Do (LRead 0)
                    (fun v => match v with
                              | VRef a => if a =? n then (RetV (VBool true), k) else (Isr2 n, k)
